@@ -142,7 +142,7 @@ fn regex_lite_field_nulls(j: &str) -> bool {
     false
 }
 
-fn case_strategy() -> impl Strategy<Value = Case> {
+pub fn case_strategy() -> impl Strategy<Value = Case> {
     stmt_gen::stmt_exec(ExecOpts { portable: true }).prop_map(|stmt| Case { stmt })
 }
 
